@@ -164,7 +164,9 @@ func H_Merge() {
 		return
 	}
 	vx.Assert(err == nil, "C02/succeeds")
-	vx.Assert(err == nil, "C19/merge-succeeds")
+	if P.K == JObj || P.K == JArr {
+		vx.Assert(err == nil, "C19/merge-succeeds")
+	}
 	if err != nil {
 		return
 	}
@@ -241,7 +243,9 @@ func H_MergeMerge() {
 		return
 	}
 	vx.Assert(err == nil, "C07/succeeds")
-	vx.Assert(err == nil, "C19/mm-succeeds")
+	if P2.K == JObj || P2.K == JArr {
+		vx.Assert(err == nil, "C19/mm-succeeds")
+	}
 	if err != nil {
 		return
 	}
@@ -253,7 +257,9 @@ func H_MergeMerge() {
 	}
 	if P2.K != JObj {
 		vx.Assert(refEqual(C, P2), "C07/non-object-p2-wins")
-		vx.Assert(refEqual(C, P2), "C19/mm-non-object-p2-wins")
+		if P2.K == JArr {
+			vx.Assert(refEqual(C, P2), "C19/mm-array-p2-wins")
+		}
 		vx.Reach("mm/non-object-p2")
 		return
 	}
@@ -518,4 +524,11 @@ func H_CreateReject() {
 		vx.Assert(err != nil, "C03/rejects-other-roots")
 		vx.Reach("createreject/rejected")
 	}
+}
+
+
+// H_Create_Legacy: as H_Create with concrete numbers (the legacy CreateMergePatch decodes numbers as float64).
+func H_Create_Legacy() {
+	concreteNums = true
+	H_Create()
 }
